@@ -871,7 +871,8 @@ class Interp(object):
             e.t = t_done
             raise e
         if o["kind"] == "error":
-            e = StateError((o["errorType"],), o["errorMessage"])
+            # (an error reply without errorMessage gives an Error Output without Cause: "" stands for "no Cause")
+            e = StateError((o["errorType"],), o["errorMessage"] if o["errorMessage"] is not None else "")
             e.t = t_done
             raise e
         result = o["value"] if o["kind"] == "result" else json.loads(o["value"])
